@@ -96,38 +96,51 @@ func (p *Program) IndexSites(fn *ssa.Function, bce *BCE) []IndexSite {
 		return nil
 	}
 	var out []IndexSite
-	ast.Inspect(body, func(n ast.Node) bool {
-		switch x := n.(type) {
-		case *ast.FuncLit:
-			return false
-		case *ast.IndexExpr:
-			tv, ok := info.Types[x.X]
-			if !ok {
-				return true
-			}
-			switch u := tv.Type.Underlying().(type) {
-			case *types.Map:
-				return true
-			case *types.Signature:
-				return true // generic instantiation
-			case *types.Array:
-				if iv, ok := info.Types[x.Index]; ok && iv.Value != nil {
-					return true // constant index into an array: checked at compile time
+	var scan func(body *ast.BlockStmt, info *types.Info, depth int)
+	scan = func(body *ast.BlockStmt, info *types.Info, depth int) {
+		ast.Inspect(body, func(n ast.Node) bool {
+			switch x := n.(type) {
+			case *ast.FuncLit:
+				return false
+			case *ast.CallExpr:
+				// the body of a function that the SSA builder expanded into fn (inline.go) belongs to fn
+				if callee := CalleeOfExpr(info, x); callee != nil && NewFunctions[callee.FullName()] && depth < 5 {
+					if fd := p.Decl(callee); fd != nil && fd.Body != nil && callee.Pkg() != nil {
+						if ci := p.InfoOf(callee.Pkg()); ci != nil {
+							scan(fd.Body, ci, depth+1)
+						}
+					}
 				}
-				_ = u
-			case *types.Pointer, *types.Slice, *types.Basic:
-			default:
-				return true
+			case *ast.IndexExpr:
+				tv, ok := info.Types[x.X]
+				if !ok {
+					return true
+				}
+				switch u := tv.Type.Underlying().(type) {
+				case *types.Map:
+					return true
+				case *types.Signature:
+					return true // generic instantiation
+				case *types.Array:
+					if iv, ok := info.Types[x.Index]; ok && iv.Value != nil {
+						return true // constant index into an array: checked at compile time
+					}
+					_ = u
+				case *types.Pointer, *types.Slice, *types.Basic:
+				default:
+					return true
+				}
+				if tv.IsType() {
+					return true
+				}
+				out = append(out, IndexSite{Fn: fn, Expr: x, Lbrack: x.Lbrack})
+			case *ast.SliceExpr:
+				out = append(out, IndexSite{Fn: fn, Expr: x, Lbrack: x.Lbrack})
 			}
-			if tv.IsType() {
-				return true
-			}
-			out = append(out, IndexSite{Fn: fn, Expr: x, Lbrack: x.Lbrack})
-		case *ast.SliceExpr:
-			out = append(out, IndexSite{Fn: fn, Expr: x, Lbrack: x.Lbrack})
-		}
-		return true
-	})
+			return true
+		})
+	}
+	scan(body, info, 0)
 	for i := range out {
 		ps := p.Fset.Position(out[i].Lbrack)
 		rel, _ := filepath.Rel(p.Repo, ps.Filename)
